@@ -3644,6 +3644,8 @@ class __implementations__:
 
     @implements(numpy.interp)
     def interp(x, xp, fp, left=None, right=None):
+        if numpy.ndim(xp) != 1 or numpy.shape(xp) != numpy.shape(fp):
+            raise ValueError('fp and xp must be one-dimensional and of the same length')
         index = numpy.searchsorted(xp, x)
         _xp = numpy.concatenate([[xp[0]], xp])
         _fp = numpy.concatenate([[fp[0]], fp])
